@@ -95,11 +95,11 @@ def mergeTarget (env : Env) (isRoot : Bool) (l r : Node) : Except AErr Node :=
     | .scalar la _ => if isRoot then .ok (.scalar ra v) else setScalar la v
     | _ => liftM (insertScalar env l ra v)
 
-def Ref.isMember : Ref → Bool
+def isMemberRef : Ref → Bool
   | .member _ => true
   | _ => false
 
-def hasMember (a : Addr) : Bool := a.any Ref.isMember
+def hasMember (a : Addr) : Bool := a.any isMemberRef
 
 /-- One iteration of the loop over the target nodes: merge into the node at `a`, write it back. -/
 def mergeOne (env : Env) (r : Node) (d : Node) (a : Addr) : Except AErr Node :=
